@@ -1,0 +1,8 @@
+//go:build !verif
+
+// Package verifhook holds the crash points used by the verification harness in /verif.
+// Without the "verif" build tag Point is an empty function.
+package verifhook
+
+// Point marks a place where the harness may stop the process (no-op in a normal build).
+func Point(string, int) {}
